@@ -154,7 +154,7 @@ impl Expansion {
         if self.from_array {
             self.fields.len()
         } else {
-            self.fields.iter().fold(0, |acc, field| acc + field.len())
+            self.fields.iter().fold(0, |acc, field| acc + field.char_count())
         }
     }
 
@@ -255,8 +255,9 @@ impl WordField {
         Self(vec![])
     }
 
-    pub fn len(&self) -> usize {
-        self.0.iter().fold(0, |acc, piece| acc + piece.len())
+    /// Returns the number of characters (not bytes) in the field.
+    pub fn char_count(&self) -> usize {
+        self.0.iter().fold(0, |acc, piece| acc + piece.char_count())
     }
 }
 
@@ -331,11 +332,9 @@ impl ExpansionPiece {
         }
     }
 
-    const fn len(&self) -> usize {
-        match self {
-            Self::Unsplittable(s) => s.len(),
-            Self::Splittable(s) => s.len(),
-        }
+    /// Returns the number of characters (not bytes) in the piece.
+    fn char_count(&self) -> usize {
+        self.as_str().chars().count()
     }
 
     fn make_unsplittable(self) -> Self {
